@@ -492,6 +492,34 @@ fn gen_long(r: &mut Rng, kind: usize) -> Vec<u8> {
     noisy_join(r, &toks)
 }
 
+/// only the long inputs (run with an unoptimised build as well: recursion that an optimiser turns into a loop
+/// still overflows the stack in a debug build)
+fn drive_deep(r: &mut Rng, n: usize, log: &mut Log) {
+    for i in 0..n {
+        let input = gen_long(r, i % 9);
+        ev_li_parse(log, &input);
+        ev_loc_parse(log, &input);
+        if let Some(p) = input.iter().position(|c| *c == b'-' || *c == b'_') {
+            ev_ext_parse(log, &input[p..]);
+        }
+        if i % 9 >= 7 {
+            // the same over-long subtag as an argument of the getters and setters
+            let tok: Vec<u8> = input.split(|c| *c == b'-' || *c == b'_').max_by_key(|t| t.len()).unwrap_or(&[]).to_vec();
+            let mut loc = Locale::default();
+            log.ev(json!({"op":"start","in": [],"out":{"k":"ok"},"st": proj_loc(&loc)}));
+            for op in [json!({"op":"set_attribute","s": bytes(&tok),"key":[],"vals":[]}), json!({"op":"has_attribute","s": bytes(&tok),"key":[],"vals":[]}),
+                       json!({"op":"set_keyword","s":[],"key": bytes(b"ca"),"vals":[bytes(&tok)]}), json!({"op":"set_tfield","s":[],"key": bytes(b"h0"),"vals":[bytes(&tok)]}),
+                       json!({"op":"add_tag","s": bytes(&tok),"key":[],"vals":[]}), json!({"op":"set_variants","s":[],"key":[],"vals":[bytes(&tok)]}),
+                       json!({"op":"set_tlang","s": bytes(&tok),"key":[],"vals":[]}), json!({"op":"set_language","s": bytes(&tok),"key":[],"vals":[]})] {
+                log.about_to(&format!("op {} (argument of {} bytes)", op["op"], tok.len()), b"");
+                let res = guard(|| ops::apply(&mut loc, &op));
+                let out = match res { Ok(x) => x, Err(at) => json!({"k":"panic","at": short_at(&at)}) };
+                log.ev(json!({"op":"op","o": op,"out": out,"st": proj_loc(&loc),"ser": b(&loc.to_string()),"empties": empties(&loc.extensions)}));
+            }
+        }
+    }
+}
+
 fn drive_parse(r: &mut Rng, n: usize, log: &mut Log) {
     // a handful of long inputs per run (each is one event; validation cost grows with length)
     // every kind of long input, once per run (9 kinds)
@@ -868,6 +896,7 @@ pub fn main(args: &[String]) {
     let mut log = Log::new(&out);
     match driver.as_str() {
         "parse" => drive_parse(&mut r, n, &mut log),
+        "deep" => drive_deep(&mut r, n, &mut log),
         "sub" => drive_sub(&mut r, n, &mut log),
         "hist" => drive_hist(&mut r, n, &mut log, cfg!(feature = "likelysubtags")),
         "hist-nolikely" => drive_hist(&mut r, n, &mut log, false),
